@@ -24,7 +24,7 @@ profile consumer applies (stated again, as the hypotheses of the comparison, in 
   R5  array <=> the Array cell is not empty; "[n]" with a number declares a fixed length n.
   R6  the field type of a field is a base type name, "bool" (base type enum), or a type of the Types sheet.
 
-Output: lean/FitModel/Generated/Xlsx.lean (namespace Fit.Gen.Xlsx) and, optionally, the same data as JSON
+Output: lean/FitModel/Generated/Xlsx.lean (messages) and XlsxTypes.lean (types), namespace Fit.Gen.Xlsx, and, optionally, the same data as JSON
 (used by the check only to print a readable replay).
 """
 import json, os, re, struct, sys, zipfile
@@ -303,8 +303,11 @@ def main(argv):
     types = read_types(sheets['Types'])
     mesgs, basebyte = read_messages(sheets['Messages'], types)
     fixed = [(m['num'], f['num'], f['fixed']) for m in mesgs for f in m['fields'] if f['fixed']]
-    s = lean_mesgs(mesgs, 'Fit.Gen.Xlsx', 'translators/xlsx.py from internal/cmd/fitgen/Profile.xlsx (independent reading)')
-    s += lean_types(types, basebyte)
+    origin = 'translators/xlsx.py from internal/cmd/fitgen/Profile.xlsx (independent reading)'
+    s = lean_mesgs(mesgs, 'Fit.Gen.Xlsx', origin)
+    t = f'import FitModel.ProfileSpec\n/-! GENERATED by {origin} — do not edit -/\nnamespace Fit.Gen.Xlsx\nopen Fit.ProfileSpec\n'
+    t += lean_types(types, basebyte) + 'end Fit.Gen.Xlsx\n'
+    write_if_changed(os.path.join(os.path.dirname(out), 'XlsxTypes.lean'), t)
     s += '/-- declared fixed array lengths (message, field, n) -/\ndef fixedLens : FixedLens := [' + \
          ', '.join(f'({a}, {b}, {c})' for a, b, c in fixed) + ']\n'
     s += f'def sheetRows : Nat × Nat := ({len(sheets["Types"])}, {len(sheets["Messages"])})\n'
